@@ -66,6 +66,16 @@ def cases(tier, seed):
     for i in range(3 if tier == "quick" else 20):
         out.append(dict(entry=R.choice(["sample_layer", "sample_layer_filtered"]), depth=R.choice([1, 2]), cs="astronomical", fmt="npy", sampler="f32", mode="clobber" if i % 2 else "update",
                         par=R.choice([2, 5]), filt=None, seed=R.randrange(1 << 30), kill_leaf=True))
+    # worker counts that are not powers of two, on an unfiltered layer with more leaves than any queue bound (depth 3)
+    for i, k in enumerate((3, 5, 6, 7) if tier == "quick" else (3, 5, 6, 7, 9, 10, 11, 12, 13)):
+        out.append(dict(entry="sample_layer", depth=3 if (tier == "quick" or i % 3) else 4, cs=R.choice(["astronomical", "planetary"]), fmt="npy", sampler=R.choice(["f32", "f64pos"]), mode="clobber",
+                        par=k, filt=None, seed=R.randrange(1 << 30)))
+    # one Pyramid object, used (counted, visited with a sampler) at one depth and then again after its documented
+    # `depth` attribute was changed - the Pyramid / ToastSampler API that sample_layer itself is made of
+    for i in range(5 if tier == "quick" else 40):
+        d = R.choice([1, 2, 2])
+        out.append(dict(entry="reused_pyramid", depth=d, depth0=R.choice([x for x in (0, 1, 2, 3) if x != d]), cs=R.choice(["astronomical", "planetary"]), fmt=R.choice(["npy", "fits"]),
+                        sampler=R.choice(["f32", "f64pos"]), mode="clobber", par=R.choice([1, 2, 3]), filt=R.choice([None, "posset", "box"]), seed=R.randrange(1 << 30)))
     for i in range(3 if tier == "quick" else 20):
         out.append(dict(entry="cli", depth=R.choice([0, 1, 2]), cs=R.choice(["astronomical", "planetary"]), fmt="png", sampler="map", mode="clobber", par=R.choice([1, 2]), filt=None, seed=R.randrange(1 << 30)))
     return out
@@ -257,6 +267,17 @@ def run_case(spec, workdir):
                     toast.sample_layer(pio, s, depth, coordsys=cs, parallel=k)
                 elif spec["entry"] == "sample_layer_filtered":
                     toast.sample_layer_filtered(pio, filt or (lambda t: True), s, depth, coordsys=cs, parallel=k)
+                elif spec["entry"] == "reused_pyramid":
+                    from toasty.pyramid import Pyramid
+
+                    pyr = Pyramid.new_toast_filtered(spec["depth0"], filt, coordsys=cs) if filt else Pyramid.new_toast(spec["depth0"], coordsys=cs)
+                    if spec["seed"] % 2:
+                        pyr.count_leaf_tiles()
+                        pyr.count_live_tiles()
+                    first = PyramidIO(base + "-earlier-depth", default_format=fmt)
+                    pyr.visit_leaves(toast.ToastSampler(first, s, True, coordsys=cs).visit_callback, parallel=k)
+                    pyr.depth = depth
+                    pyr.visit_leaves(toast.ToastSampler(pio, s, True, coordsys=cs).visit_callback, parallel=k)
                 else:
                     b = Builder(pio)
                     kw = dict(parallel=k)
